@@ -220,17 +220,68 @@ Section Sound.
       destruct (assoc u kvs); [rewrite (Hde _ _ E4 j)|]; reflexivity.
     Qed.
 
+    (* ---- several flattened members (IR/Serde.v de_flats) *)
+    Lemma find_wire_prop_cong w ps qs : list_eqb (prop_eq A) ps qs = true ->
+      match find_wire_prop w ps, find_wire_prop w qs with
+      | Some p, Some q => prop_eq A p q = true
+      | None, None => True
+      | _, _ => False
+      end.
+    Proof.
+      revert qs. induction ps as [|p ps IH]; intros [|q qs]; simpl; try discriminate; auto.
+      intros H. apply andb_prop in H as [H1 H2]. rewrite (prop_eq_wire p q H1).
+      destruct (wire_name q) as [w'|]; [|apply IH; exact H2].
+      destruct (ustr_eqb w w'); [exact H1 | apply IH; exact H2].
+    Qed.
+
+    Lemma flat_take_cong qs qs' slots : list_eqb (prop_eq A) qs qs' = true ->
+      flat_take de1 qs slots = flat_take de2 qs' slots.
+    Proof.
+      intros H. induction slots as [|kv r IH]; [reflexivity|]. cbn [flat_take].
+      pose proof (find_wire_prop_cong (fst kv) qs qs' H) as Hf.
+      destruct (find_wire_prop (fst kv) qs) as [q|]; destruct (find_wire_prop (fst kv) qs') as [q'|];
+        try contradiction.
+      - destruct (prop_eq_spec q q' Hf) as [_ [_ [_ E4]]]. rewrite (Hde _ _ E4), IH. reflexivity.
+      - rewrite IH. reflexivity.
+    Qed.
+
+    Lemma de_flats_cong fps fqs : list_eqb (prop_eq A) fps fqs = true ->
+      forall slots, de_flats T de1 df1 fps slots = de_flats T' de2 df2 fqs slots.
+    Proof.
+      revert fqs. induction fps as [|fp fps IH]; intros [|fq fqs]; simpl; try discriminate; auto.
+      intros H slots. apply andb_prop in H as [H1 H2].
+      destruct (prop_eq_spec fp fq H1) as [E1 [_ [_ E4]]].
+      destruct (R_step _ _ E4) as [d [d' [Ed [Ed' Hdet]]]]. rewrite Ed, Ed'.
+      destruct d; destruct d'; simpl in Hdet; try discriminate Hdet; try reflexivity.
+      - (* Option of a struct *)
+        destruct (R_step _ _ Hdet) as [e [e' [Fe [Fe' He]]]]. rewrite Fe, Fe'.
+        destruct e; destruct e'; simpl in He; try discriminate He; try reflexivity.
+        apply andb_prop in He as [He1 _].
+        pose proof (props_flat _ _ He1) as Hfl.
+        destruct (flat_props props) as [|x xs]; destruct (flat_props props0) as [|y ys];
+          simpl in Hfl; try discriminate Hfl; try reflexivity.
+        rewrite (flat_take_cong props props0 slots He1).
+        destruct (flat_take de2 props0 slots) as [[tk rest] ok].
+        rewrite (de_named_cong props props0 tk He1), (IH fqs H2 rest), E1. reflexivity.
+      - (* map *)
+        rewrite (Hde _ _ E4), (IH fqs H2 slots), E1. reflexivity.
+    Qed.
+
     Lemma de_struct_obj_cong ps qs deny kvs : list_eqb (prop_eq A) ps qs = true ->
       de_struct_obj T de1 df1 ps deny kvs = de_struct_obj T' de2 df2 qs deny kvs.
     Proof.
       intros H. unfold de_struct_obj. rewrite (de_named_cong ps qs kvs H), (props_unknown ps qs kvs H).
       destruct (de_named T' de2 df2 qs kvs); [|reflexivity].
       assert (Hf := props_flat ps qs H).
+      assert (HF := de_flats_cong _ _ Hf (unknown_entries qs kvs)).
       destruct (flat_props ps) as [|fp [|fp2 r]]; destruct (flat_props qs) as [|fq [|fq2 r']];
         simpl in Hf; try discriminate Hf; try reflexivity;
-        apply andb_prop in Hf as [Hf0 Hf]; try discriminate Hf.
-      destruct (prop_eq_spec fp fq Hf0) as [E1 [_ [_ E4]]].
-      rewrite (Hde _ _ E4), E1. apply match_map_eq. apply R_kind. exact E4.
+        try (apply andb_prop in Hf as [Hf0 Hf]; try discriminate Hf).
+      - destruct (prop_eq_spec fp fq Hf0) as [E1 [_ [_ E4]]].
+        destruct (R_step _ _ E4) as [d [d' [Ed [Ed' Hdet]]]]. rewrite Ed, Ed'.
+        destruct d; destruct d'; simpl in Hdet; try discriminate Hdet; try (rewrite HF; reflexivity).
+        rewrite (Hde _ _ E4), E1. reflexivity.
+      - rewrite HF. reflexivity.
     Qed.
 
     Lemma de_struct_seq_cong ps qs l : list_eqb (prop_eq A) ps qs = true ->
